@@ -853,6 +853,48 @@ func dumpIsDeadlock(dump string) bool {
 	return blocked > 0
 }
 
+// DumpIsStuckWaitingForChildren classifies the goroutine dump (SIGQUIT) of a command line process that runs helper
+// processes (ssh sessions): true when no goroutine can run or is asleep - every one is blocked on a channel, a lock, or
+// waits for input from / the exit of one of the process's own children, who only speak when spoken to. Together with
+// the children being idle this is a deadlock across processes; the verdict is structural, the wall clock only decides
+// when to look.
+func DumpIsStuckWaitingForChildren(dump string) bool {
+	blocks := strings.Split(dump, "\n\n")
+	blocked := 0
+	seen := 0
+	for _, b := range blocks {
+		m := goroutineHdr.FindStringSubmatch(b)
+		if m == nil {
+			continue
+		}
+		seen++
+		st := m[2]
+		if i := strings.Index(st, ","); i >= 0 {
+			st = st[:i]
+		}
+		st = strings.TrimSpace(st)
+		switch {
+		case st == "chan receive", st == "chan send", st == "select", st == "select (no cases)", strings.HasPrefix(st, "sync."), st == "semacquire":
+			blocked++
+		case st == "GC worker (idle)", st == "GC sweep wait", st == "GC scavenge wait", st == "finalizer wait", st == "force gc (idle)", st == "cleanup wait", st == "idle":
+		case st == "IO wait", st == "syscall":
+			if strings.Contains(b, "os/exec.") || strings.Contains(b, "os/signal.") || strings.Contains(b, "os.(*Process)") {
+				continue
+			}
+			return false
+		case st == "running":
+			// the goroutine that received the signal and writes the dump
+			if strings.Contains(b, "os/signal.") || strings.Contains(b, "runtime.sigNoteSleep") || !strings.Contains(b, "github.com/folbricht/desync") {
+				continue
+			}
+			return false
+		default:
+			return false
+		}
+	}
+	return seen > 0 && blocked > 0
+}
+
 func readRecords(out string) (recs []Record, lastStarted int, lastInfo string) {
 	lastStarted = -1
 	f, err := os.Open(out)
